@@ -26,7 +26,8 @@ Inductive hevent :=
 | HPut (m : smsg)                                   (* correlator.put(m) after a successful write *)
 | HResponse (r : resp) (mid : Z)                    (* a parsed response PDU; mid = message_id of a submit_sm_resp *)
 | HRcpt (r : receipt) (has_id : bool)               (* a parsed delivery receipt; has_id = an id was found in text or TLV *)
-| HExpire (seq : Z).                                (* the sweep finds the stored request with this sequence number too old *)
+| HExpire (seq : Z)                                 (* the sweep finds the stored request with this sequence number too old *)
+| HResponseX (r : resp) (mid : Z) (exps : list Z).  (* a response during whose correlation these requests time out *)
 
 Definition with_corr (s : hstate) (c : corr) : hstate :=
   {| h_corr := c; h_deliv := h_deliv s; h_next := h_next s; h_thr := h_thr s; h_nonthr := h_nonthr s; h_rlog := h_rlog s |}.
@@ -65,9 +66,72 @@ Definition handle_response (s : hstate) (r : resp) (mid : Z) : hstate * list hou
                  | Some lr => (s3, [HResp (rs_uid lr) (match dget (rs_uid lr) rl with Some l => l | None => 0 end) (rs_cmd lr) (rs_status lr)])
                  | None => (s3, [HResp (rs_uid r) (sm_log m) cmd (rs_status r)])
                  end
-          | None => (s3, [HResp (rs_uid r) (sm_log m) cmd (rs_status r)])
+          | None =>
+            (* a segment whose status cell is gone: its message already got its outcome (fix d022cf6) *)
+            if 0 <? snd (sm_sar m) then (s3, [HRaw]) else (s3, [HResp (rs_uid r) (sm_log m) cmd (rs_status r)])
           end
         else (s1, [HResp (rs_uid r) 0 cmd (rs_status r)])
+      end
+    end.
+
+(* one iteration of the expiry sweep for the request stored under this sequence number *)
+Definition expire_one (s : hstate) (sq : Z) : hstate * list hout :=
+  match dget sq (c_store (h_corr s)) with
+  | None => (s, [])
+  | Some e =>
+    let c1 := with_store (h_corr s) (ddel sq (c_store (h_corr s))) in
+    let '(c2, call) := expired c1 (e_msg e) in
+    (with_corr s c2, match call with Some m => [HSendError (sm_log m)] | None => [] end)
+  end.
+Fixpoint expire_all (exps : list Z) (s : hstate) : hstate * list hout :=
+  match exps with
+  | [] => (s, [])
+  | sq :: t => let '(s1, o1) := expire_one s sq in let '(s2, o2) := expire_all t s1 in (s2, o1 ++ o2)
+  end.
+
+(* the same with the sweep that correlator.get() runs before it returns: the requests in exps have just become too old *)
+Definition handle_response_x (exps : list Z) (s : hstate) (r : resp) (mid : Z) : hstate * list hout :=
+  let cmd := rs_cmd r in
+  if negb (mem cmd handled_response_commands) then (s, [HRaw])
+  else
+    let oc := if cmd =? SmppCommand_GENERIC_NACK then Ok None
+              else match lookup cmd response_command_map with Some c => Ok (Some c) | None => Err EXN_KeyError end in
+    match oc with
+    | Err e => (s, [HCrash e])
+    | Ok oc =>
+      let '(c0, oe) := get_pop (h_corr s) r in
+      let ex := expire_all exps (with_corr s c0) in
+      let c1 := h_corr (fst ex) in
+      let eo := snd ex in
+      let s1 := with_corr s c1 in
+      match oe with
+      | None => (s1, eo ++ [HResp (rs_uid r) 0 cmd (rs_status r)])
+      | Some e =>
+        let m := e_msg e in
+        if match oc with Some c => negb (sm_cmd m =? c) | None => false end then (s1, eo ++ [HRaw])
+        else if ((cmd =? SmppCommand_SUBMIT_SM_RESP) || (cmd =? SmppCommand_GENERIC_NACK)) && (sm_cmd m =? SmppCommand_SUBMIT_SM) then
+          let rl := dset (h_rlog s) (rs_uid r) (sm_log m) in
+          let s2 := if mem (rs_status r) throttled_statuses
+                    then {| h_corr := c1; h_deliv := h_deliv s; h_next := h_next s; h_thr := h_thr s + 1; h_nonthr := h_nonthr s; h_rlog := rl |}
+                    else {| h_corr := c1; h_deliv := h_deliv s; h_next := h_next s; h_thr := h_thr s; h_nonthr := h_nonthr s + 1; h_rlog := rl |} in
+          let ok := (cmd =? SmppCommand_SUBMIT_SM_RESP) && (rs_status r =? SmppCommandStatus_ESME_ROK) in
+          let d1 := if ok then put_delivery (h_deliv s2) 0%Q mid m (h_next s2) else h_deliv s2 in
+          (* the segmentation check is made for every response to a SubmitSm, accepted or not *)
+          let '(c2, oss, code) := get_segmented c1 (rs_seq r) false in
+          let s3 := {| h_corr := c2; h_deliv := d1; h_next := (if ok then h_next s2 + 1 else h_next s2); h_thr := h_thr s2; h_nonthr := h_nonthr s2; h_rlog := rl |} in
+          match oss with
+          | Some ss =>
+            if code =? STATUS_SENDING then (s3, eo ++ [HRaw])
+            else if code =? STATUS_EXPIRED then (s3, eo ++ [HSendError (sm_log (ss_orig ss)); HRaw])
+            else match ss_last_resp ss with
+                 | Some lr => (s3, eo ++ [HResp (rs_uid lr) (match dget (rs_uid lr) rl with Some l => l | None => 0 end) (rs_cmd lr) (rs_status lr)])
+                 | None => (s3, eo ++ [HResp (rs_uid r) (sm_log m) cmd (rs_status r)])
+                 end
+          | None =>
+            (* a segment whose status cell is gone: its message already got its outcome (fix d022cf6) *)
+            if 0 <? snd (sm_sar m) then (s3, eo ++ [HRaw]) else (s3, eo ++ [HResp (rs_uid r) (sm_log m) cmd (rs_status r)])
+          end
+        else (s1, eo ++ [HResp (rs_uid r) 0 cmd (rs_status r)])
       end
     end.
 
@@ -98,15 +162,8 @@ Definition hstep (s : hstate) (ev : hevent) : hstate * list hout :=
                   h_thr := h_thr s; h_nonthr := h_nonthr s; h_rlog := h_rlog s |}, [])
   | HResponse r mid => handle_response s r mid
   | HRcpt r has_id => handle_receipt s r has_id
-  | HExpire sq =>
-    (* _remove_expired: del self._store[key]; await self.expired(message) *)
-    match dget sq (c_store (h_corr s)) with
-    | None => (s, [])
-    | Some e =>
-      let c1 := with_store (h_corr s) (ddel sq (c_store (h_corr s))) in
-      let '(c2, call) := expired c1 (e_msg e) in
-      (with_corr s c2, match call with Some m => [HSendError (sm_log m)] | None => [] end)
-    end
+  | HExpire sq => expire_one s sq
+  | HResponseX r mid exps => handle_response_x exps s r mid
   end.
 
 Fixpoint hrun (s : hstate) (evs : list hevent) : hstate * list hout :=
